@@ -80,13 +80,19 @@ def scripts(draw, tier):
     c["extra_names"] = draw(st.booleans())              # the evaluator tracks other quantities besides the monitored one
     c["variance_name"] = draw(st.sampled_from([None, "m", "a", "m_variance"]))    # deprecated class only: documented as ignored
     c["second_stopper"] = draw(st.sampled_from([None, None, "before", "after"]))
-    c["abort_between"] = draw(st.integers(0, 3)) == 0
+    c["abort_between"] = draw(st.integers(0, 2)) == 0
     if c["abort_between"] and crit != "variance":
         c["rounds"], c["extra_names"], c["evaluator"], c["stopper_first"] = 2, True, "metric", False
         c.pop("ds", None)
         if draw(st.integers(0, 3)) > 0:
             # ... and the next fit() checks the rule BEFORE its first evaluation (stopper period 1, evaluator period 2 or 3, history kept)
             c["clear_between"], c["pe"], c["ps"], c["se"], c["patience"] = False, draw(st.sampled_from([2, 3])), 1, 1, min(c["patience"], 2)
+            Lr_ = max(1, len(c["vals"]) // 2)
+            if draw(st.integers(0, 3)) > 0 and Lr_ - 1 - c["patience"] >= 0 and Lr_ < len(c["vals"]):
+                if c["tol"] in (0.0, 1e300, float("inf")):
+                    c["tol"] = draw(st.sampled_from([1e-3, 0.05, 0.3]))
+                # the value that the failing evaluation computes (and never records) recurs: it equals the recorded value the rule looks back to
+                c["vals"][Lr_] = c["vals"][Lr_ - 1 - c["patience"]]
     if long_ and fam == "geometric":
         # slowly converging long run: the tolerance sits just above the deviation of an evaluation between the 60th and the 77th, which is
         # then the first one to meet the rule
